@@ -79,12 +79,16 @@ module Z :
 
   val eqb : z -> z -> bool
 
+  val min : z -> z -> z
+
   val abs : z -> z
 
   val to_nat : z -> nat
 
   val of_nat : nat -> z
  end
+
+val last : 'a1 list -> 'a1 -> 'a1
 
 val map : ('a1 -> 'a2) -> 'a1 list -> 'a2 list
 
@@ -187,7 +191,14 @@ val fuelN : z -> nat
 val fill_body :
   (((z * z) * z) -> 'a1) -> z -> z -> 'a1 storage -> 'a1 storage outcome
 
+val resize_storage : 'a1 storage -> z -> z -> 'a1 storage
+
+val fill_from :
+  (((z * z) * z) -> 'a1) -> 'a1 storage -> z -> 'a1 storage outcome
+
 val fill : (((z * z) * z) -> 'a1) -> z -> 'a1 storage outcome
+
+val refill : (((z * z) * z) -> 'a1) -> z list -> 'a1 storage outcome
 
 val lookup :
   (((z * z) * z) -> 'a1) -> 'a1 storage -> z -> z -> z -> z -> 'a1 outcome
@@ -196,6 +207,8 @@ val fill_then_lookup :
   (((z * z) * z) -> 'a1) -> z -> z -> z -> z -> 'a1 outcome
 
 val probe : z -> z -> z -> z -> ((z * z) * z) outcome
+
+val probe_seq : z list -> z -> z -> z -> ((z * z) * z) outcome
 
 val window_cells : z -> z
 
